@@ -79,8 +79,8 @@ def unshow(s: str) -> dict:
     return rec(t, int(v))
 
 
-def to_python(r: dict, rng: random.Random):
-    """Value record -> the Python object handed to the API."""
+def to_python(r: dict, rng: random.Random | None):
+    """Value record -> the Python object handed to the API (rng None: canonical spelling)."""
     t = r["t"]
     if t == "int":
         return r["i"]
@@ -88,7 +88,7 @@ def to_python(r: dict, rng: random.Random):
         return bool(r["i"])
     if t == "str":
         s = r["s"]
-        return rng.choice([s, s, s.upper(), s.capitalize()])  # "(case-insensitive)"
+        return rng.choice([s, s, s.upper(), s.capitalize()]) if rng else s  # "(case-insensitive)"
     if t == "none":
         return None
     if t == "float":
@@ -147,6 +147,10 @@ def setattr_raw(c, k, v):
     type.__setattr__(c, k, v)
 
 
+class ForceFailed(Exception):
+    """The real classes refused a plain valid *set* while a model state was being re-created."""
+
+
 class World:
     """One tree of real classes + instances.  Node numbers are the spec's (1-based)."""
 
@@ -200,9 +204,10 @@ class World:
         restore_real_classes(self.base)
 
     # ------------------------------------------------------------- operations
-    def do(self, op: dict):
+    def do(self, op: dict, canonical: bool = False):
         """Execute one model operation; returns (result, used-frame or '')."""
         k, st, n, a = op["k"], op["set"], op["n"], op["a"]
+        rng = None if canonical else self.rng
         node = self.nodes[n]
         try:
             if k == "render":
@@ -216,11 +221,11 @@ class World:
                     else:
                         node.set_render_method()
                 else:
-                    node.set_render_method(to_python(a, self.rng))
+                    node.set_render_method(to_python(a, rng))
             elif k == "unset":
                 delattr(node, PROP[st])
             else:
-                setattr(node, PROP[st], to_python(a, self.rng))
+                setattr(node, PROP[st], to_python(a, rng))
         except Exception as e:  # the outcome IS the observation
             return type(e).__name__, ""
         return "ok", ""
@@ -232,9 +237,9 @@ class World:
             for i, r in enumerate(vals, 1):
                 if r["t"] == "unset":
                     continue
-                res, _ = self.do({"k": "set", "set": st, "n": i, "a": r})
+                res, _ = self.do({"k": "set", "set": st, "n": i, "a": r}, canonical=True)
                 if res != "ok":
-                    raise MachineryError(f"c20: cannot force {st}[{i}] = {r}: {res}")
+                    raise ForceFailed(f"cannot force {st}[{i}] = {r}: {res}")
 
     # ------------------------------------------------------------ observation
     def _frame(self, inst, override: str | None) -> str:
